@@ -78,7 +78,9 @@ def cases(tier, seed):
       c.update(avq=pick([None, "quantized_bits(8,0,1)", "quantized_po2(4)"]), xin=(ri(1, 2), ri(2, 6), ri(2, 6), ri(1, 3)))
     elif kind == "scaleshift":
       c.update(xin=(ri(1, 2), ri(2, 6), ri(1, 3)))
-    if kind in ("conv1d", "conv2d", "dw") and rnd.random() < 0.3 and c["s"] in (1, (1, 1)):
+    if kind in ("sep1d", "sep2d"):
+      c["d"] = 1
+    if kind in ("conv1d", "conv2d", "dw", "sep1d", "sep2d") and rnd.random() < 0.3 and c["s"] in (1, (1, 1)):
       c["d"] = 2
     if kind == "conv2d" and rnd.random() < 0.25 and c["xin"][-1] in (2, 4) and c["filters"] in (2, 4):
       c["groups"] = 2
@@ -131,15 +133,15 @@ def build(c, rs):
                              depthwise_initializer=wi(), bias_initializer="zeros", **kw)
     kl = L.DepthwiseConv2D(tuple(c["k"]), strides=tuple(c["s"]), padding=c["pad"], depth_multiplier=c["dm"], dilation_rate=c["d"], **kw)
   elif kind == "sep1d":
-    ql = qk.QSeparableConv1D(c["filters"], c["k"], strides=c["s"], padding=c["pad"], depth_multiplier=c["dm"],
+    ql = qk.QSeparableConv1D(c["filters"], c["k"], strides=c["s"], padding=c["pad"], depth_multiplier=c["dm"], dilation_rate=c["d"],
                              depthwise_quantizer=c["wq"], pointwise_quantizer=c["wq2"], bias_quantizer=c["bq"],
                              activation=c["aq"], depthwise_initializer=wi(), pointwise_initializer=wi(), bias_initializer="zeros", **kw)
-    kl = L.SeparableConv1D(c["filters"], c["k"], strides=c["s"], padding=c["pad"], depth_multiplier=c["dm"], **kw)
+    kl = L.SeparableConv1D(c["filters"], c["k"], strides=c["s"], padding=c["pad"], depth_multiplier=c["dm"], dilation_rate=c["d"], **kw)
   elif kind == "sep2d":
-    ql = qk.QSeparableConv2D(c["filters"], tuple(c["k"]), strides=tuple(c["s"]), padding=c["pad"], depth_multiplier=c["dm"],
+    ql = qk.QSeparableConv2D(c["filters"], tuple(c["k"]), strides=tuple(c["s"]), padding=c["pad"], depth_multiplier=c["dm"], dilation_rate=c["d"],
                              depthwise_quantizer=c["wq"], pointwise_quantizer=c["wq2"], bias_quantizer=c["bq"],
                              activation=c["aq"], depthwise_initializer=wi(), pointwise_initializer=wi(), bias_initializer="zeros", **kw)
-    kl = L.SeparableConv2D(c["filters"], tuple(c["k"]), strides=tuple(c["s"]), padding=c["pad"], depth_multiplier=c["dm"], **kw)
+    kl = L.SeparableConv2D(c["filters"], tuple(c["k"]), strides=tuple(c["s"]), padding=c["pad"], depth_multiplier=c["dm"], dilation_rate=c["d"], **kw)
   elif kind in ("rnn", "lstm", "gru"):
     Qc = {"rnn": qk.QSimpleRNN, "lstm": qk.QLSTM, "gru": qk.QGRU}[kind]
     ex = {} if kind == "rnn" else {"implementation": c["impl"]}
